@@ -68,6 +68,8 @@ type vfC08C struct {
 	sig     []byte // the signature held (possibly mutated)
 	sigOrig []byte
 	sigs    map[string][]byte
+	laWho   int
+	fams    map[string][]vfC08Sig
 	rnd     interface{ Intn(int) int }
 	allBits bool
 }
@@ -147,6 +149,12 @@ func (c *vfC08C) reference(kt string, who int, form string) (any, error) {
 
 // is the datum the (kt, who) key / ID in this form?
 func (c *vfC08C) same(kt string, who int, form string, d any) bool {
+	if form == "idx" {
+		// look-alikes are by construction not the ID of the key (checked when they were built); they
+		// belong to (kt, who) only in the sense that they embed a serialisation of that key
+		_, ok := d.([]vfC08Lookalike)
+		return ok && who == c.laWho
+	}
 	ref, err := c.reference(kt, who, form)
 	if err != nil {
 		return false
@@ -486,6 +494,53 @@ func vfC08RunC(res *vfh.Result, cnt *vfC08Counters, w vfh.Walk, rsaName string, 
 				}
 				cnt.inc("C.verifymut.messages", n+1)
 			}
+		case "verifyenc":
+			c.verifyEnc(st, op.S("m"), op.B("may"))
+		case "lookalike":
+			ref := c.key(st.Kt, st.Who)
+			las := vfC08Lookalikes(c.cur.([]byte), op.S("edit"), vfC08Must(peer.IDFromPublicKey(ref.pub)))
+			cnt.inc("C.lookalike.ids."+op.S("edit"), len(las))
+			if len(las) == 0 {
+				cnt.inc("C.lookalike.none."+op.S("edit")+":"+st.Kt, 1) // e.g. the canonical bytes of an inlined key ARE its ID
+				res.Count(1, si+1)
+				return
+			}
+			c.cur = las
+			c.laWho = st.Who
+		case "matchesx":
+			ref := c.key(op.S("kt"), op.I("who"))
+			for _, la := range c.cur.([]vfC08Lookalike) {
+				cnt.inc("C.matchesx", 1)
+				if cls, what := vfC08PairClause(la.id, ref, la.how); cls != "" {
+					c.mismatch(cls, what+fmt.Sprintf(" [look-alike of %s key %d against %s key %d]", ckt, st.Who, op.S("kt"), op.I("who")), false, true)
+				}
+			}
+		case "consumex":
+			c.consumeLookalikes(st)
+		case "extractx":
+			ref := c.key(st.Kt, st.Who)
+			var next crypto.PubKey
+			for _, la := range c.cur.([]vfC08Lookalike) {
+				cnt.inc("C.extractx", 1)
+				k2, err := la.id.ExtractPublicKey()
+				if err != nil || !vfC08KeyEq(k2, ref.pub) {
+					continue
+				}
+				cnt.inc("C.extractx.equal", 1)
+				// the embedded key is the original key: it has the ORIGINAL's ID, not the look-alike
+				if id2, err := peer.IDFromPublicKey(k2); err != nil || id2 == la.id || !id2.MatchesPublicKey(ref.pub) {
+					c.mismatch("id-not-function-of-key:"+st.Kt, fmt.Sprintf("the key extracted from a look-alike ID (%s) has ID %s", la.how, id2), nil, nil)
+				}
+				if next == nil {
+					next = k2
+				}
+			}
+			if next == nil {
+				cnt.inc("C.extractx.none:"+st.Via+":"+st.Kt, 1)
+				res.Count(1, si+1)
+				return
+			}
+			c.cur = next
 		case "equals":
 			ref := c.key(op.S("kt"), op.I("who"))
 			var got bool
@@ -565,6 +620,103 @@ func vfC08RunC(res *vfh.Result, cnt *vfC08Counters, w vfh.Walk, rsaName string, 
 		st = nx
 	}
 	res.Count(1, len(w.Steps))
+}
+
+// family of encodings of a signature by the signer over msg (cached per walk)
+func (c *vfC08C) family(kt string, who int, tag string, msg []byte) []vfC08Sig {
+	k := fmt.Sprintf("%s/%d/%s", kt, who, tag)
+	if f, ok := c.fams[k]; ok {
+		return f
+	}
+	f := vfC08SigFamily(c.key(kt, who).priv, msg)
+	if c.fams == nil {
+		c.fams = map[string][]vfC08Sig{}
+	}
+	c.fams[k] = f
+	return f
+}
+
+// verifyEnc: the held signature term Sign(S, ms) in every encoding, verified under the current key K for
+// message m.  may = (K = S and m = ms).  Acceptance when ~may is a violation whatever the encoding; and
+// the same forged encodings are pushed through the envelope layer and both address books.
+func (c *vfC08C) verifyEnc(st vfC08CState, m string, may bool) {
+	pk := c.cur.(crypto.PubKey)
+	cur := c.key(st.Kt, st.Who)
+	ckt := c.concrete(st.Kt)
+	fam := append([]vfC08Sig{}, c.family(st.Sig.Kt, st.Sig.Who, st.Sig.M, c.msgs[st.Sig.M])...)
+	fam = append(fam, vfC08SigReencodings(c.key(st.Sig.Kt, st.Sig.Who).pub.Type(), c.sigOrig)...)
+	for _, s := range fam {
+		ok, _ := pk.Verify(c.msgs[m], s.sig)
+		c.cnt.inc("C.verifyenc.verifies", 1)
+		switch {
+		case ok && !may:
+			c.mismatch("verify-accepts-foreign-signature-encoding:"+st.Kt, fmt.Sprintf("a %s signature by key %d over %s, presented as %q (%d bytes), verifies under %s key %d (via %s) for message %s",
+				c.concrete(st.Sig.Kt), st.Sig.Who, st.Sig.M, s.name, len(s.sig), ckt, st.Who, st.Via, m), false, true)
+		case ok && s.name != "lib":
+			c.cnt.inc("C.verifyenc.own-alt-encoding-accepted."+ckt+"."+s.name, 1)
+		}
+	}
+	// envelope layer: a peer record naming K's ID in an envelope carrying K's key, "signed" by the foreign
+	// signer in every encoding, through every consumer.  K sealed nothing: the ledger is empty.
+	foreign := st.Sig.Kt != st.Kt || st.Sig.Who != st.Who
+	if !foreign || m != st.Sig.M {
+		return
+	}
+	kID := vfC08Must(peer.IDFromPublicKey(cur.pub))
+	rec := &peer.PeerRecord{PeerID: kID, Seq: 9, Addrs: []ma.Multiaddr{ma.StringCast("/ip4/10.6.6.6/tcp/4001")}}
+	pay := vfC08Must(rec.MarshalRecord())
+	pre := vfC08Unsigned(peer.PeerRecordEnvelopeDomain, peer.PeerRecordEnvelopePayloadType, pay)
+	kp := vfC08Must(crypto.PublicKeyToProto(cur.pub))
+	var ledger vfC08Ledger
+	for _, s := range c.family(st.Sig.Kt, st.Sig.Who, "env:"+string(kID), pre) {
+		wire := vfC08Marshal(kp, peer.PeerRecordEnvelopePayloadType, pay, s.sig)
+		for _, kind := range []string{"untyped", "typed", "pmem", "pds"} {
+			a := vfC08Consume(kind, wire, peer.PeerRecordEnvelopeDomain)
+			c.cnt.inc("C.verifyenc.envelope."+kind, 1)
+			if cls, what := vfC08Monitor(&ledger, a); cls != "" {
+				c.mismatch("forged-signature-encoding-"+cls, what+fmt.Sprintf(" [signature by %s key %d presented as %q under %s key %d]", c.concrete(st.Sig.Kt), st.Sig.Who, s.name, ckt, st.Who), "reject", vfC08Artefact(&ledger, a, wire))
+			}
+		}
+	}
+}
+
+// consumeLookalikes: for every look-alike ID x of key K: a peer record naming x sealed with K (a valid
+// envelope!) must be refused by both address books, nothing may be retrievable under x, and the pair
+// (x, K) must be refused by MatchesPublicKey and both key books.
+func (c *vfC08C) consumeLookalikes(st vfC08CState) {
+	k := c.key(st.Kt, st.Who)
+	ckt := c.concrete(st.Kt)
+	for _, la := range c.cur.([]vfC08Lookalike) {
+		if cls, what := vfC08PairClause(la.id, k, la.how); cls != "" {
+			c.mismatch(cls, what+" ["+ckt+"]", false, true)
+		}
+		for _, kind := range []string{"pmem", "pds"} {
+			if got := vfC08NewKeyBook(kind).PubKey(la.id); got != nil {
+				// nothing was added: the book derives the key from the look-alike ID itself and adopts the pair
+				c.cnt.inc("C.consumex.keybook-pubkey-adopts-lookalike."+kind, 1)
+				c.mismatch("L2:keybook-pubkey-adopts-lookalike-id:"+kind, fmt.Sprintf("%s KeyBook.PubKey(x) returns (and stores) a key for an ID x that is not IDFromPublicKey of that key (%s)", kind, la.how), nil, nil)
+			}
+		}
+		rec := &peer.PeerRecord{PeerID: la.id, Seq: 11, Addrs: []ma.Multiaddr{ma.StringCast("/ip4/10.7.7.7/tcp/4001")}}
+		env, err := record.Seal(rec, k.priv)
+		if err != nil {
+			continue // (an ID the record cannot even carry)
+		}
+		wire := vfC08Must(env.Marshal())
+		e := vfC08Env(wire)
+		var ledger vfC08Ledger
+		ledger.add(k.pub, peer.PeerRecordEnvelopeDomain, e.PayloadType, e.Payload)
+		for _, kind := range []string{"untyped", "pmem", "pds"} {
+			a := vfC08Consume(kind, wire, peer.PeerRecordEnvelopeDomain)
+			c.cnt.inc("C.consumex."+kind, 1)
+			if a.ok {
+				c.cnt.inc("C.consumex.accepted."+kind, 1)
+			}
+			if cls, what := vfC08Monitor(&ledger, a); cls != "" {
+				c.mismatch("lookalike-id-"+cls, what+" ["+la.how+", "+ckt+"]", "reject", vfC08Artefact(&ledger, a, wire))
+			}
+		}
+	}
 }
 
 // decodeEdited: every concrete variant of one abstract surgery on the serialised key.  A variant the
